@@ -30,6 +30,8 @@ _SEQ_TEXT = {
     "C20": "Stats() after every call equals the model counters; eviction counters bounded by the Overflow/Expiration events of the call",
 }
 for _p in seqcheck.PLAN:
+    if _p not in _SEQ_TEXT:
+        continue     # registered below together with its concurrent half
     CHECKS[_p] = seqcheck.run
     META[_p] = {
         "engine": "seq-fold",
@@ -54,10 +56,10 @@ HOOK_COMMITS.extend(["3f17fd0", "90d5fc6"])
 _WR_TEXT = {
     "C04": "after quiescence and one maintenance run the weight of the entries present is within the maximum, nothing heavier than the maximum is retained, zero-weight entries are never evicted (WriteReplay.tla: Bound; real cache: WRAudit.tla over the audit record)",
     "C05": "after quiescence the table, the three policy deques with their running totals, the timer wheel and the public views (WeightedSize, EstimatedSize, All, Hottest, Coldest) agree (WriteReplay.tla: Agree; real cache: WRAudit.tla)",
-    "C06": "values written = values present + values reported; each removed value reaches OnAtomicDeletion and OnDeletion exactly once with the same cause; per key the atomic handler sees removals in installation order (WriteReplay.tla: Once/NeverTwice; real cache: WRAudit.tla)",
+    "C06": "sequential fold: the atomic and the asynchronous handler receive the same bag of (key, value, cause) in every call, operation-caused events are exactly the predicted ones (incl. Expiration for writes over / removals of expired-unswept entries), all 12 layouts; concurrent: values written = values present + values reported; each removed value reaches OnAtomicDeletion and OnDeletion exactly once with the same cause; per key the atomic handler sees removals in installation order (WriteReplay.tla: Once/NeverTwice; real cache: WRAudit.tla)",
 }
 for _p in ("C04", "C05", "C06"):
-    CHECKS[_p] = wrcheck.run
+    CHECKS[_p] = wrcheck.run if _p != "C06" else seqcheck.run
     META[_p] = {
         "engine": "write-replay",
         "text": _WR_TEXT[_p],
